@@ -7,3 +7,8 @@ EXTRA = {
     "C05": {"technique": "symbolic execution of the real diagram evaluation with symbolic tensor entries vs explicit Einstein sums (SMT/normal form per entry) over an enumerated family of diagram structures; epsilon/delta tables vs definitions with a symbolic index tuple (z3)"},
 }
 NOT_APPLICABLE = {}
+CLAIMED.update({"C16": "DESIGN 4/C16", "C18": "DESIGN 4/C18"})
+EXTRA.update({
+    "C16": {"technique": "symbolic execution + SMT: parametrised segments / symbolic triangles with all coordinates free; polygons: enumerated lattice polygons (bound on the polygon) x free real query point decided by z3 against a crossing-number oracle"},
+    "C18": {"technique": "symbolic execution + SMT: one operand free reals, the other from an enumerated lattice family (segments/lines both free where the solver decides it); soundness, completeness per edge and duplicate freedom per path"},
+})
